@@ -146,6 +146,27 @@ def run(E: Engine, rep: Report, tier: str) -> dict:
                 rep.check((dotted(call.func) or "") == c.name, "SIB", f"{c.name}.{mname}|same-class", f"returns a {c.name}", f"{c.name}.{mname} returns {dotted(call.func)}", E.where(f, call))
     if n_cls < 6:
         rep.error(f"only {n_cls} waveform classes analysed (expected 6)")
+    # a waveform that keeps extra construction options in a mapping (InterpolatedWaveform._kwargs: times, interpolator
+    # and the interpolator's own options) hands the whole mapping to every copy it builds of itself
+    from .. import sym as _symK
+    from .symutil import S as _SK, unobj as _unK
+
+    n_kw = 0
+    for c in [base] + subs:
+        has_kw = any(isinstance(n, ast.Attribute) and n.attr == "_kwargs" and isinstance(n.ctx, ast.Store) for n in ast.walk(c.node))
+        if not has_kw:
+            continue
+        for nm_ in ("change_duration", "__mul__"):
+            for f in c.methods.get(nm_, []):
+                for l in _SK(E, f).logged("return"):
+                    v = _unK(l.value) if l.value is not None else None
+                    if v is None or v[0] != "call" or v[1] != ("name", c.name):
+                        continue
+                    n_kw += 1
+                    whole = any(k == "**" and _unK(x) == ("attr", ("name", "self"), "_kwargs") for k, x in v[3])
+                    rep.check(whole, "SIB", f"{c.name}.{nm_}|forwards-all-construction-options", "the copy is built with **self._kwargs", f"{c.name}.{nm_} rebuilds the waveform without `**self._kwargs` (passes {[k for k, _x in v[3]]}): options kept there (e.g. the interpolator's `kind`) are lost in the copy, so scaling / changing the duration changes the shape", E.where(f, l.node))
+    if n_kw < 2:
+        raise AnalysisError("anchor: the copies InterpolatedWaveform builds of itself (change_duration, __mul__) were not found")
     rep.floor("SIB", 24)
 
     # ------------------------------------------------------ base operations
